@@ -59,6 +59,17 @@ def run(tier):
     for i, kind in enumerate(netgen.UNSUPPORTED_KINDS if tier == "thorough" else ["per_axis_fc", "float", "rank0", "dyn_slice", "batch"]):
         jobs.append({"family": "unsupported:" + kind, "seed": "c13r-%d-%d" % (vlib.seed(), i),
                      "args": ["--show-cpu-operations", "--show-subgraph-io-summary", "--verbose-operators"][: 1 + i % 3], "capture": False})
+    # every reporting / debugging switch of the command line on its own, on models with and without CPU operators, with
+    # several subgraphs, with tables and with an LSTM (the printers walk structures the plain compilation never touches)
+    flags = [["--verbose-graph"], ["--verbose-quantization"], ["--verbose-packing"], ["--verbose-tensor-purpose"],
+             ["--verbose-tensor-format"], ["--verbose-schedule"], ["--verbose-allocation"], ["--verbose-high-level-command-stream"],
+             ["--verbose-register-command-stream"], ["--verbose-operators"], ["--verbose-weights"], ["--verbose-performance"],
+             ["--verbose-progress"], ["--verbose-config"], ["--subgraph-output"], ["--enable-debug-db"], ["--recursion-limit", "2000"],
+             ["--timing"], ["--verbose-all", "--subgraph-output", "--enable-debug-db"]]
+    ffams = ["mixed_cpu", "lut_mixed", "multi_subgraph", "lstm", "conv_chain", "rewrite_patterns", "unsupported", "multi_custom"]
+    for i, a in enumerate(flags):
+        for rep in range(2 if tier == "quick" else len(ffams)):
+            jobs.append({"family": ffams[(i + rep * 3) % len(ffams)], "seed": "c13f-%d-%d-%d" % (vlib.seed(), i, rep), "args": a, "capture": False})
     results = compiles.run_all(jobs, timeout=900)
     stat = collections.Counter(r["status"] for r in results)
     fams = collections.Counter(r["job"]["family"] for r in results)
